@@ -60,7 +60,7 @@ func c20Lines(c *Check) {
 			return false
 		}
 		fv := fieldOf(info, s.X)
-		return fv != nil && fv.Name() == "line"
+		return fv != nil && objName(fv) == "line"
 	}
 	// the world in which the character just read is a line feed
 	world := r.F.World(func(atom ast.Expr) (bool, bool) {
@@ -337,7 +337,7 @@ func fieldInitialisedInLiterals(p *Prog, pk *packagesPkg, fv *types.Var) bool {
 			set := false
 			for _, el := range cl.Elts {
 				if kv, ok := el.(*ast.KeyValueExpr); ok {
-					if id, ok := kv.Key.(*ast.Ident); ok && id.Name == fv.Name() && !isNilIdent(pk.TypesInfo, kv.Value) {
+					if id, ok := kv.Key.(*ast.Ident); ok && id.Name == objName(fv) && !isNilIdent(pk.TypesInfo, kv.Value) {
 						set = true
 					}
 				}
@@ -502,7 +502,7 @@ func c20Recursion(c *Check) {
 			found := false
 			inspectNoLit(n, func(x ast.Node) bool {
 				if ids, ok := x.(*ast.IncDecStmt); ok && ids.Tok == token.DEC {
-					if fv := fieldOf(inf, ids.X); fv != nil && fv.Name() == "nesting" {
+					if fv := fieldOf(inf, ids.X); fv != nil && objName(fv) == "nesting" {
 						found = true
 					}
 				}
@@ -644,7 +644,7 @@ func c20EntryGuard(c *Check, r *RuleCtx) (bool, string) {
 		if s, ok := pt.Node().(*ast.IncDecStmt); ok && s.Tok == token.INC {
 			if fv := fieldOf(info, s.X); fv != nil {
 				incs = append(incs, pt)
-				fieldName = fv.Name()
+				fieldName = objName(fv)
 			}
 		}
 	}
@@ -657,7 +657,7 @@ func c20EntryGuard(c *Check, r *RuleCtx) (bool, string) {
 			return false, false
 		}
 		fv := fieldOf(info, be.X)
-		if fv == nil || fv.Name() != fieldName {
+		if fv == nil || objName(fv) != fieldName {
 			return false, false
 		}
 		if tv, ok := info.Types[be.Y]; !ok || tv.Value == nil {
